@@ -121,6 +121,34 @@ func (r *entityResolver) FindManyBetaByNames(ctx context.Context, reps []*BetaBy
 	}
 	return out, nil
 }
+func (r *entityResolver) FindManyZetaByIDs(ctx context.Context, reps []*ZetaByIDsInput) ([]*Zeta, error) {
+	var keys []string
+	for _, rp := range reps {
+		keys = append(keys, rp.ID)
+	}
+	if err := r.w.apply(ctx, "ZetaByIDs:"+strings.Join(keys, ",")); err != nil {
+		return nil, err
+	}
+	out := make([]*Zeta, len(reps))
+	for i, rp := range reps {
+		out[i] = &Zeta{ID: rp.ID, Name: "name-of-" + rp.ID, Weight: 7}
+	}
+	return out, nil
+}
+func (r *entityResolver) FindManyZetaByNames(ctx context.Context, reps []*ZetaByNamesInput) ([]*Zeta, error) {
+	var keys []string
+	for _, rp := range reps {
+		keys = append(keys, rp.Name)
+	}
+	if err := r.w.apply(ctx, "ZetaByNames:"+strings.Join(keys, ",")); err != nil {
+		return nil, err
+	}
+	out := make([]*Zeta, len(reps))
+	for i, rp := range reps {
+		out[i] = &Zeta{ID: "id-of-" + rp.Name, Name: rp.Name, Weight: 7}
+	}
+	return out, nil
+}
 func (r *entityResolver) FindDeltaByID(ctx context.Context, id string) (*Delta, error) {
 	if err := r.w.apply(ctx, "DeltaByID:" + id); err != nil {
 		return nil, err
@@ -157,7 +185,7 @@ var (
 	fedDoc    *ast.QueryDocument
 )
 
-const fedQueryText = `query($r: [_Any!]!) { _entities(representations: $r) { __typename ... on Alpha { id name } ... on Beta { id name } ... on Gamma { note owner { id } } ... on Delta { id size weight } ... on Epsilon { sku variant upc } } }`
+const fedQueryText = `query($r: [_Any!]!) { _entities(representations: $r) { __typename ... on Alpha { id name } ... on Beta { id name } ... on Gamma { note owner { id } } ... on Delta { id size weight } ... on Zeta { id name size } ... on Epsilon { sku variant upc } } }`
 
 func fedSetup() {
 	es := NewExecutableSchema(Config{Resolvers: &fedRoot{}})
